@@ -157,7 +157,7 @@ def reported_positions(ex, n):
     return pos
 
 
-def check_case(ctx, f, data, n, rng):
+def check_case(ctx, f, data, n, rng, mo=None):
     vs = sorted(data)
     text = "out = " + F.to_text(f)
     out = evaluate_and_explain(text, vs, data, n)
@@ -176,7 +176,8 @@ def check_case(ctx, f, data, n, rng):
     ctx.count("violated")
     pos = reported_positions(ex, n)
     # correspondence: positions reported by the mirror of the explainer
-    mo = common.driver_run([disc.proto_case("explain", f, data, n)])[0]
+    if mo is None:
+        mo = common.driver_run([disc.proto_case("explain", f, data, n)])[0]
     if mo.startswith("ok"):
         mpos = set()
         for item in mo[2:].split(";"):
@@ -236,31 +237,36 @@ REGIONS = {"iffxor": in_iffxor}
 
 
 def explore(ctx, rng, count):
+    cases = []
     for i in range(count):
         nv = rng.choice([1, 1, 2])
         g = EGen(rng, VARS[:nv], ALLOW, max_bound=rng.choice([1, 2, 3, 5]), consts=(0.0, 1.0, 2.0))
         g.iffxor = rng.random() < 0.4
         if i % 3 == 0:
             f = gen_pair(rng, g, i // 3 + ctx.seed * 7919)
-            ctx.count("gen:pairs")
+            kind = "gen:pairs"
         elif i % 3 == 1:
             g.vars = VARS3[:rng.choice([2, 3])]
             f = gen_triple(rng, g, i // 3 + ctx.seed * 104729)
-            ctx.count("gen:triples")
+            kind = "gen:triples"
         else:
             f = g.formula(rng.choice([2, 3, 4]))
-            ctx.count("gen:random")
+            kind = "gen:random"
         n = rng.randint(1, 12) if i % 3 != 1 else rng.randint(4, 12)
         data = gen_data(rng, F.variables(f) or ["a"], n)
         if disc.known_region(ctx, {"f": f}, REGIONS):
             ctx.skipped_known += 1
             continue
+        cases.append((f, data, n, kind))
+    mos = common.driver_run([disc.proto_case("explain", f, data, n) for f, data, n, _ in cases])
+    for (f, data, n, kind), mo in zip(cases, mos):
+        ctx.count(kind)
         for o in F.ops(f):
             if o[:2] in ("b:", "u:", "t1", "tb") and o.split(":")[1] in ("and", "or", "implies", "not", "iff", "xor", "prev", "sprev", "next", "snext",
                                                                         "once", "hist", "ev", "alw"):
                 ctx.count("op:" + o)
         ctx.evaluations += 1
-        v = check_case(ctx, f, data, n, rng)
+        v = check_case(ctx, f, data, n, rng, mo)
         if v is None:
             ctx.traces_validated += 1
             if len(ctx.samples) < 3 and F.depth(f) >= 3:
